@@ -125,6 +125,9 @@ def proj_exec_semantics(op, line):
 PROJECTIONS = {
     "all": proj_all,
     "exec_semantics": proj_exec_semantics,
+    # C12: the codec operations in full; of the state operations only whether a batch is accepted (a coin whose covenant
+    # hash names no program must not be spendable: the state transition function has to use the same strict decoder)
+    "codec_and_status": proj_by_op({"dec": ("all",), "enc": ("all",), "w": ("all",), "std": ("all",), "batch": ("status",)}, default=("none",)),
     "status": proj_status,
     # accept/reject of everything, and the bytes of the standard covenants
     "status_std": proj_by_op({"std": ("all",), "env": ("all",)}, default=("status",)),
